@@ -203,7 +203,7 @@ func genTkOp(r *gen.R, nicks, chans []string) tkOp {
 		for i := 0; i < k; i++ {
 			l = append(l, r.Pick(n(), "key", "12", "-5", "99999999999999999999", "+7", "x1", ""))
 		}
-		return tkOp{name: "ChannelModes", args: []string{c(), r.Bytes(r.N(6), "+-imnprstzZOklqaohvbe")}, list: l}
+		return tkOp{name: "ChannelModes", args: []string{c(), r.Bytes(r.N(6), "+-imnprstzZOklqaohvbeIx")}, list: l}
 	case 15:
 		return tkOp{name: "Me"}
 	case 16:
